@@ -10,7 +10,7 @@
  * @mem native
  * @defs -DZSTD_MULTITHREAD
  * @cbmc --unwind 4 --unwindset v_fill_nondet.0:400,memcmp.0:400
- * @timeout 300
+ * @timeout 900
  * @memgb 4
  * @instance stage -DH_STAGE
  * @instance reset -DH_RESET
